@@ -1,12 +1,31 @@
 package main
 
 import (
+	"os"
+
 	"verifharness/props/c08"
+	"verifharness/props/live"
 	"verifharness/vh"
 )
 
 func main() {
+	if os.Getenv("LIVE_LEG") != "" { // child process of the live part (d)
+		os.Exit(live.ChildMain())
+	}
 	run := vh.Start("C08")
 	c08.RunD1(run)
+	// (d) query goroutines (EthCall, EstimateGas, TraceTx, module queries, CheckTx, Simulate) concurrent with
+	// block production on one application instance, under the race detector and in the plain build
+	q := !run.Thorough()
+	n := func(a, b int) int {
+		if q {
+			return a
+		}
+		return b
+	}
+	live.RunLegs(run, "c08", []live.LegSpec{
+		{Leg: "queries", Bin: "race", Trials: n(4, 30), Aggro: 2, Procs: n(2, 6)},
+		{Leg: "queries", Bin: "plain", Trials: n(10, 100), Aggro: 2, Procs: n(1, 4)},
+	})
 	run.Finish()
 }
